@@ -1,7 +1,7 @@
 (** C03 — A filespace never reaches outside its root, whatever path it is given.
     Statements only.  A stack of views is a chain of path-transforming layers over a root
     backend (Model/Views.v); [root_of c] is where the stack's own root lies in the backend. *)
-From GC Require Import Common.Base Model.Paths Model.Fs Model.Views Proofs.Paths Proofs.Fs Proofs.Views.
+From GC Require Import Common.Base Model.Paths Model.Fs Model.Views Proofs.Paths Proofs.Fs Proofs.Views Proofs.NonInterf.
 
 (** Reduction never yields an empty, "." or ".." component: a successfully reduced path cannot
     name anything above the point it is resolved from. *)
@@ -69,6 +69,33 @@ Theorem C03_memfs_view_confined : forall b t o q,
    lookup (fst (view_step (view_base b) t o)) q = Some D /\ is_prefix q b = true).
 Proof. exact view_step_outside. Qed.
 Print Assumptions C03_memfs_view_confined.
+
+(** The READ half — nothing outside the view can be read or listed: for any of the 16 operations
+    with any raw arguments through a memfs child view rooted at [b], the answer and the tree below
+    [b] afterwards are functions of the tree below [b] alone.  Two parent trees that agree below
+    [b] (and in which [b] is a directory) are indistinguishable through the view, along whole
+    histories. *)
+Theorem C03_view_noninterference : forall b t1 t2 o, good_path b = true -> agree b t1 t2 ->
+  snd (view_step (view_base b) t1 o) = snd (view_step (view_base b) t2 o) /\
+  agree b (fst (view_step (view_base b) t1 o)) (fst (view_step (view_base b) t2 o)).
+Proof. exact view_noninterference. Qed.
+Print Assumptions C03_view_noninterference.
+
+Theorem C03_view_noninterference_history : forall b, good_path b = true -> forall ops t1 t2, agree b t1 t2 ->
+  map snd (snd (fold_left (fun acc o => let r := view_step (view_base b) (fst acc) o in (fst r, snd acc ++ [r]))
+                          ops (t1, [])))
+  = map snd (snd (fold_left (fun acc o => let r := view_step (view_base b) (fst acc) o in (fst r, snd acc ++ [r]))
+                            ops (t2, []))).
+Proof. exact view_noninterference_history. Qed.
+Print Assumptions C03_view_noninterference_history.
+
+Example C03_ex_agree :
+  agree [[97]] [([[97]], D); ([[97]; [120]], F [1]); ([[115]], F [9])]
+               [([[122]], D); ([[97]], D); ([[97]; [120]], F [1])].
+Proof.
+  split; [reflexivity|]. split; intros a x H; destruct a as [|n [|m a]]; simpl in H; inversion H; subst; try reflexivity;
+    try (destruct a; discriminate).
+Qed.
 
 (** Non-vacuity. *)
 Example C03_ex_stack :
